@@ -12,7 +12,9 @@
 (* delivered, since the last rewind, exactly the content the digest names  *)
 (* and, when the descriptor states a size, exactly that many units.  Once  *)
 (* a call has returned an error the stream has not completed cleanly,      *)
-(* whatever later calls return, until it is rewound.                       *)
+(* whatever later calls return, until it is rewound.  "Over-long" is also  *)
+(* judged at the source: a clean end while the source still has bytes to   *)
+(* give (observed by the driver at the transport / file) is a violation.   *)
 (*                                                                         *)
 (* Mirrors no code.  The `end` event carries two facts computed by the     *)
 (* driver independently of regclient and of the symbol abstraction (real   *)
@@ -20,7 +22,7 @@
 (* agree with the abstract comparison, otherwise the tooling is broken     *)
 (* (bad = "oracle-disagree", reported as a tool error, not a violation).   *)
 (***************************************************************************)
-EXTENDS Naturals, Sequences, TLC
+EXTENDS Integers, Sequences, TLC
 VARIABLES hdr,        \* [intended |-> sequence of symbols, size |-> units, 0 = not stated]
           delivered,  \* symbols handed to the caller since the last rewind
           st,         \* "reading" | "clean" | "error"
@@ -59,10 +61,17 @@ PSeek0(err) ==
      ELSE delivered' = delivered /\ st' = "error"
   /\ UNCHANGED <<hdr, bad>>
 
-\* end of the observation; shaOk / lenOk: the driver's independent concrete oracle (1 / 0)
-PEnd(shaOk, lenOk) ==
-  /\ bad' = Flag(\/ (shaOk = 1) # (delivered = hdr.intended)
-                 \/ (lenOk = 1) # (hdr.size = 0 \/ Len(delivered) = hdr.size), "oracle-disagree")
+\* end of the observation; shaOk / lenOk: the driver's independent concrete oracle (1 / 0);
+\* left: bytes the source (response body within its Content-Length, blob file, inline data) still
+\* had to give when the observation ended (-1 = not observed).  A clean end that leaves bytes of
+\* the source unread has accepted an over-long stream.
+PEnd(shaOk, lenOk, left) ==
+  /\ bad' = IF bad # "" THEN bad
+            ELSE IF \/ (shaOk = 1) # (delivered = hdr.intended)
+                    \/ (lenOk = 1) # (hdr.size = 0 \/ Len(delivered) = hdr.size)
+                 THEN "oracle-disagree"
+            ELSE IF st = "clean" /\ left > 0 THEN "clean-end-before-end-of-source"
+            ELSE ""
   /\ UNCHANGED <<hdr, delivered, st>>
 
 PNote == UNCHANGED pvars
